@@ -1787,7 +1787,11 @@ func (r *Raft) heartbeatLoop() {
 			r.mu.Unlock()
 			return
 		}
-		if r.state == Follower {
+		// Only the leader sends heartbeats. A candidate that is the only voting member would
+		// otherwise confirm itself with every heartbeat interval (the single server case of
+		// sendAppendEntriesToPeers), which counts as contact with a leader, and never hold the
+		// election that makes it the leader.
+		if r.state != Leader {
 			r.mu.Unlock()
 			continue
 		}
